@@ -15,40 +15,52 @@ import json
 from harness import core
 from harness.engines import rules as R
 
-DEMAND_REUSABLE_DICT = True  # the dictionary form can be structured more than once (D54 when it cannot)
-
 META = {
     "engine": "Roundtrip",
     "category": "proof",
     "design_ref": "§6 C32, §5.7",
     "technique": "Lean 4 theorem (structure ∘ unstructure = id on field records, for any number of fields/attributes; class "
-    "defaults regenerated from the interpreter and checked by decide) + differential correspondence attribute by attribute",
+    "defaults regenerated from the interpreter and checked by decide; argv preservation through the Argv engine's commandArgs) "
+    "+ differential correspondence attribute by attribute",
     "text": "Lean theorems over a model of unstructure / filter_out_defaults / structure and the parts of define they go through "
-    "(field classes as attribute lists; types, callables, converters, enums as opaque atoms): C32_field_roundtrip — for any class "
-    "table with distinct attribute names and any field, re-applying the class defaults to the filtered dictionary gives the field "
-    "back, provided every attribute value survives the dictionary form; C32_value_survives_iff — exactly which values do "
-    "(everything except a non-trivial `requires`); C32_roundtrip_partial — structure(unstructure d) = d for every well-formed "
-    "definition with any number of input/output fields whose requirement sets survive (decidable hypothesis), with corollaries "
-    "C32_observations_preserved / C32_rules_preserved (same command line / same rule violations for every assignment); "
-    "C32_shell_dict_reusable; witnesses C32_witness_requires, C32_witness_requires_silent (D53) and C32_python_dict_consumed, "
-    "C32_witness_python_twice (D54).  The table of Field-class defaults (Gen/FieldDefaults.lean) is regenerated from attrs.fields "
-    "of the running interpreter on every run; C32_defaults_table_ok / _shape are closed by decide on it.  Correspondence: "
-    "unstructure keys per field, structure outcome, attribute-by-attribute comparison of the recreated fields, xor / name / "
-    "executor / field order, rule violations on every assignment of the definition, positions assigned by shell.define, second "
-    "structure of the same dictionary; cmdline (shell) and outputs (python) of original vs recreated class.",
+    "(field classes shell.arg/out/outarg, python.arg/out as attribute lists; types, callables, converters, enums as opaque atoms): "
+    "C32_field_roundtrip — for any class table with distinct attribute names and any field, re-applying the class defaults to the "
+    "filtered dictionary gives the field back, provided every attribute value survives the dictionary form; "
+    "C32_value_survives_iff — exactly which values do (everything except a non-trivial `requires`); C32_roundtrip_general — for "
+    "every well-formed definition structure(unstructure d) is either refused by the reference check or equals roundDef d; "
+    "C32_roundtrip_partial — = d for every definition (any number of inputs, outputs, outargs) whose requirement sets survive "
+    "(decidable hypothesis SerOKDef); C32_cmdline_preserved — the argument vector built by the Argv engine's commandArgs (C22) "
+    "from the recreated definition equals the original's for all values and append_args; C32_only_requires_can_change / "
+    "C32_cmdline_preserved_whenever_structured — outside SerOKDef (D53) only the `requires` attribute can differ, so the argv is "
+    "preserved whenever structure returns; C32_rules_preserved; C32_dict_reusable (structure is a pure function of the dictionary "
+    "since the repair of D54; C32_old_shallow_* document the former behaviour); witnesses C32_witness_requires, "
+    "C32_witness_requires_silent (D53).  The table of Field-class defaults (Gen/FieldDefaults.lean) is regenerated from "
+    "attrs.fields of the running interpreter on every run; C32_defaults_table_ok / _shape are closed by decide on it.  "
+    "Correspondence: definitions of the C31 generator, shell definitions with argstr/position/sep/help/allowed_values, and "
+    "definitions of the C22 generator (int/float/path/list/MultiInputObj fields, outargs with path_template, templated argstrs, "
+    "multi-word executables): unstructure keys per field, structure outcome, attribute-by-attribute comparison of the recreated "
+    "fields, xor / name / executor / field order, rule violations on every assignment, positions assigned by shell.define, a "
+    "second structure of the same dictionary (unchanged dictionary, same result), the argv of the model's Argv view vs the argv "
+    "handed to subprocess; cmdline (shell) and outputs (python) of original vs recreated class.",
     "note": "Trusted: Lean kernel; hand-written model of unstructure/structure/define (tied by the correspondence); the encoding of "
     "attribute values as atoms (types by str(), callables by qualified name); Python `==` on attribute values is modelled as "
-    "structural equality.  Class-style (decorated class) definitions, outarg/path_template outputs, workflow definitions and "
-    "custom filter / value_serializer arguments are outside the generator.",
-    "rule": "case = one generated task definition (python or shell; ≤ 5 fields; requirement sets, xor groups, argstr, position, "
-    "sep, help, allowed_values); distinct by canonical JSON of the definition without its class name; non-trivial = has at "
-    "least one rule or non-default metadata attribute; every assignment (≤ 243) of each definition is used to compare rule "
-    "behaviour of original and recreated class",
+    "structural equality; the Argv engine's model of _command_args (its own property C22).  Class-style (decorated class) "
+    "definitions, workflow definitions and custom filter / value_serializer arguments are outside the generator.",
+    "rule": "case = one generated task definition (python or shell; C31 generator: ≤ 5 fields with requirement sets and xor groups; "
+    "metadata generator: argstr, position, sep, help, allowed_values; C22 generator: ≤ 6 fields incl. outargs); distinct by "
+    "canonical JSON of the definition without its class name; non-trivial = has at least one rule or non-default metadata "
+    "attribute; every assignment (≤ 243) of each C31-style definition is used to compare rule behaviour of original and "
+    "recreated class",
     "assumptions": [
         "definitions are built by python.define / shell.define from a function / an executable and keyword dictionaries",
         "Python == on the attribute values used here agrees with structural equality (str, int, bool, None, lists of str, enums, types)",
+        "field defaults are None, bool or str, as in the C22/C31 generators the property quantifies over; container- and "
+        "bytes-valued defaults are outside (observed on the unchanged tree and recorded in the evidence as "
+        "out_of_quantifier_observations: unstructure's value serializer turns a dict default into the list of its keys, a bytes "
+        "default into a list of ints, tuple/set defaults into lists, so structure raises TypeError for a `dict`/`bytes`-typed field "
+        "or silently changes the default of an untyped one)",
     ],
-    "trusted": ["model of unstructure / structure / define written by hand (Roundtrip/Model.lean)"],
+    "trusted": ["model of unstructure / structure / define written by hand (Roundtrip/Model.lean)", "Argv engine's model of ShellTask._command_args (Argv/Model.lean)"],
 }
 
 _NS = "PydraModel.Roundtrip."
@@ -64,8 +76,13 @@ OBLIGATIONS = [
         "C32_roundtrip_no_requires",
         "C32_observations_preserved",
         "C32_rules_preserved",
-        "C32_shell_dict_reusable",
-        "C32_python_dict_consumed",
+        "C32_roundtrip_general",
+        "C32_cmdline_preserved",
+        "C32_only_requires_can_change",
+        "C32_cmdline_preserved_whenever_structured",
+        "C32_dict_reusable",
+        "C32_old_shallow_python_dict_consumed",
+        "C32_old_shallow_shell_dict_kept",
         "C32_witness_requires",
         "C32_witness_requires_silent",
         "C32_witness_python_twice",
@@ -73,7 +90,7 @@ OBLIGATIONS = [
     )
 ]
 LEAN_TARGETS = ["PydraModel.Props.C32"]
-MODEL_TARGETS = ["PydraModel.Roundtrip.Lemmas2", "PydraModel.DriverUtil"]
+MODEL_TARGETS = ["PydraModel.Roundtrip.ArgvView", "PydraModel.DriverUtil"]
 EXTRACTORS = [R.extract_field_defaults]
 
 
@@ -168,13 +185,35 @@ def behaviour_same(ctx, d, cls, cls2, asgs, limit) -> bool:
     return True
 
 
-def impl_case(ctx, d: dict) -> tuple[dict, dict, bool]:
-    """-> (observable, model query, behaviour_same)"""
+def argv_behaviour_same(case, cls, cls2) -> bool:
+    """cmdline of original and recreated class for the values of a C22-generator case"""
+    from harness.engines import argv as A
+
+    kwargs = {f["name"]: A._py_value(f, v) for f, v in zip(case["fields"], case["values"]) if not (v is None and not f["optional"])}
+    if case["append"]:
+        kwargs["append_args"] = list(case["append"])
+    res = []
+    for c in (cls, cls2):
+        try:
+            res.append(c(**kwargs).cmdline)
+        except Exception as e:  # noqa: BLE001
+            res.append({"error": core.exc_tag(e)})
+    return res[0] == res[1]
+
+
+def impl_case(ctx, d: dict, argv_case: dict | None = None) -> tuple[dict, dict, bool]:
+    """-> (observable, model query, behaviour_same).  `argv_case`: a case of the C22 generator (harness/engines/argv.py);
+    the class is then built by that engine's `build_class`, and the argument vector is observed too."""
     from pydra.utils.general import structure, unstructure
 
-    cls = R.build(d, ctx.scratch / "mods")
+    if argv_case is not None:
+        from harness.engines import argv as A
+
+        cls = A.build_class(argv_case)
+    else:
+        cls = R.build(d, ctx.scratch / "mods")
     ins, outs = user_fields(cls)
-    asgs = R.assignments(d)
+    asgs = R.assignments(d) if argv_case is None else []
     effs = [R.effective(d, a) for a in asgs]
     ex = executor_of(cls)
     query = {
@@ -187,6 +226,10 @@ def impl_case(ctx, d: dict) -> tuple[dict, dict, bool]:
         "xor": [sorted(g, key=str) for g in sorted(map(list, cls._xor), key=lambda g: sorted(map(str, g)))],
         "assignments": [{k: ({"unset": True} if v == R.UNSET else v) for k, v in e.items()} for e in effs],
     }
+    if argv_case is not None:
+        mq = A.model_query(argv_case)
+        query["values"] = {f["name"]: v for f, v in zip(mq["fields"], mq["values"])}
+        query["append"] = mq["append"]
     dct = unstructure(cls)
     obs = {
         "unstructured": {
@@ -215,7 +258,11 @@ def impl_case(ctx, d: dict) -> tuple[dict, dict, bool]:
         v2 = R.canon_violations(R.instantiate(cls2, a)._rule_violations())
         nd += v1 != v2
     obs["rules_diff"] = nd
-    behaviour = behaviour_same(ctx, d, cls, cls2, asgs, ctx.pick(2, 5))
+    if argv_case is not None:
+        behaviour = argv_behaviour_same(argv_case, cls, cls2)
+        obs["argv"] = A.run_impl(argv_case, ctx.scratch, want_cmdline=False)["argv"]
+    else:
+        behaviour = behaviour_same(ctx, d, cls, cls2, asgs, ctx.pick(2, 5))
     try:
         cls3 = structure(dct)
         i3, o3 = user_fields(cls3)
@@ -225,7 +272,7 @@ def impl_case(ctx, d: dict) -> tuple[dict, dict, bool]:
         obs["second"] = core.exc_tag(e)
         obs["second_diffs"] = []
     if d["flavor"] == "shell":
-        obs["positions"] = [getattr(f, "position") for f in ins]
+        obs["positions"] = [getattr(f, "position") for f in ins] + [getattr(f, "position") for f in outs if hasattr(f, "path_template")]
     return obs, query, behaviour
 
 
@@ -245,6 +292,13 @@ def model_obs(ans: dict, pos: dict | None) -> dict | None:
     }
     if pos is not None and not failed:
         m["positions"] = pos["positions"]
+    if "argv" in ans:
+        from harness.engines import argv as A
+
+        r = ans["argv"]
+        m["argv"] = r["ok"] if "ok" in r else {"error": A.MODEL_ERR.get(r["err"], r["err"])}
+        if ans["argv_roundtripped"] != ans["argv"]:  # contradicts C32_cmdline_preserved_whenever_structured
+            m["argv"] = {"model-argv-changed": ans["argv_roundtripped"]}
     return m
 
 
@@ -258,15 +312,26 @@ def canon_key(d: dict) -> str:
     return json.dumps({k: v for k, v in d.items() if k != "name"}, sort_keys=True, default=str)
 
 
+def argv_def(case: dict, name: str) -> dict:
+    """a C22-generator case as a definition record of this module (fields only carry what the positions query needs)"""
+    return {
+        "flavor": "shell", "name": name, "empty": False, "xor": [], "argv_case": case,
+        "fields": [{"name": f["name"], "kind": "argv:" + f["kind"], "requires": [], "position": f["position"]} for f in case["fields"]],
+    }  # fmt: skip
+
+
 def run_defs(ctx, defs: list[dict]):
     rows = []
     q = []
     for d in defs:
-        obs, query, behaviour = impl_case(ctx, d)
+        obs, query, behaviour = impl_case(ctx, d, d.get("argv_case"))
         rows.append((d, obs, behaviour))
         q.append(query)
         if d["flavor"] == "shell":
             q.append({"op": "positions", "fields": [{"name": f["name"], "position": f.get("position")} for f in d["fields"]]})
+        if "argv_case" in d:
+            ctx.count("c22-generator")
+            ctx.count("c22:outarg" if any(f["out"] for f in d["argv_case"]["fields"]) else "c22:no-outarg")
         ctx.count(f"flavor={d['flavor']}")
         ctx.count("requires" if any(f.get("requires") for f in d["fields"]) else "no-requires")
         ctx.count(f"structure:{obs['structure']}")
@@ -294,21 +359,24 @@ def run_defs(ctx, defs: list[dict]):
             ctx.tie_broken.append({"kind": "match-rule-vs-lean-SerOKDef", "case": d, "lean_ser_ok": a["ser_ok"]})
         if model is not None and "positions" not in model:
             obs = {k_: v for k_, v in obs.items() if k_ != "positions"}
+        if model is not None and "argv" in obs and "argv" not in model:
+            obs = {k_: v for k_, v in obs.items() if k_ != "argv"}
         spec_ok = (
             obs["structure"] == "ok"
             and obs["diffs"] == []
             and obs["shape_same"] is True
             and obs["rules_diff"] == 0
             and behaviour
-            and (not DEMAND_REUSABLE_DICT or (obs["second"] == "ok" and obs["second_diffs"] == []))
+            # the dictionary form is not consumed by its use (D54, repaired: regression demand)
+            and obs["second"] == "ok"
+            and obs["second_diffs"] == []
+            and obs["dict_mutated"] is False
         )
         defect = None
         if not spec_ok:
             if mangled_requires(d):
                 defect = "D53"
-            elif d["flavor"] == "python" and obs["structure"] == "ok" and obs["diffs"] == [] and obs["rules_diff"] == 0 and behaviour:
-                defect = "D54"
-        meta = any(f.get(k_) is not None for f in d["fields"] for k_ in ("argstr", "position", "sep", "help", "allowed_values"))
+        meta = "argv_case" in d or any(f.get(k_) is not None for f in d["fields"] for k_ in ("argstr", "position", "sep", "help", "allowed_values"))
         nontrivial = bool(d["xor"]) or any(f.get("requires") for f in d["fields"]) or meta
         ctx.judge({"def": d}, obs, model, spec_ok, nontrivial=nontrivial, defect=defect, key=canon_key(d), what="unstructure/structure")
 
@@ -376,9 +444,11 @@ def check_findings(ctx):
             f"structure(unstructure(T)) with alpha requiring beta -> {r53[0][0]}; with an extra field named 'requirements' -> "
             f"{r53s[0][0]}, requires changed: {silent}",
         )
+    # D54 (repaired in the tree: structure() deep-copies): regression — the second use of the dictionary must succeed
     if "D54" in known:
         ctx.finding("D54", r54[0][0] == "ok" and r54[1][0] != "ok", f"python task: first structure -> {r54[0][0]}, second on the same dict -> {r54[1][0]}")
-
+    elif not (r54[0][0] == "ok" and r54[1][0] == "ok"):
+        ctx.violations.append({"kind": "regression-D54", "detail": f"python task: first structure -> {r54[0][0]}, second on the same dict -> {r54[1][0]}", "case": {"def": W54}})
 
 def corpus(ctx):
     check_findings(ctx)
@@ -393,9 +463,17 @@ def corpus(ctx):
 
 
 def gen_defs(ctx, n: int, tag: str) -> list[dict]:
+    from harness.engines import argv as A
+
     out = []
     for i in range(n):
         name = f"R{tag}_{ctx.seed}_{i}"
+        r = ctx.rng.random()
+        if r < 0.25:  # the C22 generator's definitions (int/float/path/list/MultiInputObj fields, outargs, templated argstrs)
+            case = A.gen_case(ctx.rng, word=A.safe_word, allow_bad_def=0.0)
+            if case["fields"]:
+                out.append(argv_def(case, name))
+                continue
         r = ctx.rng.random()
         if r < 0.30:
             d = R.gen_meta_def(ctx.rng, name, with_requires=False)
@@ -413,9 +491,42 @@ def gen_defs(ctx, n: int, tag: str) -> list[dict]:
     return out
 
 
+def out_of_quantifier_observations(ctx):
+    """Recorded, not judged: container / bytes defaults are not produced by the C22/C31 generators (META assumptions)."""
+    from pydra.compose import python
+    from pydra.utils.general import structure, unstructure
+
+    src = (
+        "def OOQ(a: dict = {'k': 1, 'j': 2}, b: bytes = b'ab', c: tuple = (1, 2), e=(1, 2)):\n"
+        "    return (a, b, c, e)\n"
+    )
+    path = ctx.scratch / "mods" / "verif_rules_ooq.py"
+    path.parent.mkdir(parents=True, exist_ok=True)
+    path.write_text(src)
+    import importlib.util
+
+    spec = importlib.util.spec_from_file_location("verif_rules_ooq", path)
+    mod = importlib.util.module_from_spec(spec)
+    spec.loader.exec_module(mod)
+    obs = {}
+    try:
+        cls = python.define(mod.OOQ, outputs=["out"])
+        dct = unstructure(cls)
+        obs["unstructured_defaults"] = {n: repr(v.get("default")) for n, v in dct["inputs"].items()}
+        try:
+            structure(dct)
+            obs["structure"] = "ok"
+        except Exception as e:  # noqa: BLE001
+            obs["structure"] = core.exc_tag(e)
+    except Exception as e:  # noqa: BLE001
+        obs["error"] = core.exc_tag(e)
+    ctx.extra["out_of_quantifier_observations"] = obs
+
+
 def correspondence(ctx):
     core.assert_repo_loaded()
     corpus(ctx)
+    out_of_quantifier_observations(ctx)
     run_defs(ctx, gen_defs(ctx, ctx.pick(36, 600), "c"))
 
 
@@ -425,4 +536,4 @@ def search(ctx):
 
 def replay(ctx, rec):
     check_findings(ctx)
-    run_defs(ctx, [rec["case"]["def"]])
+    run_defs(ctx, [rec["case"]["def"]])  # a C22-generator case travels inside the record ("argv_case")
